@@ -19,6 +19,8 @@ def derivative_contract(env, factory, const=None, exempt=(), history=True, equal
     does not depend on them; inputs are not written."""
     if getattr(env, "only_isolation", False):
         return isolation_contract(env, factory, sibling, const=const, setup_model=setup_model, pre=pre)
+    if getattr(env, "only_history", None):
+        return history_contract(env, factory, env.only_history, const=const, setup_model=setup_model, pre=pre)
     hB = env.comp("fresh", factory, setup_model)
     if pre:
         pre(env, hB)
@@ -204,6 +206,80 @@ def derivative_contract(env, factory, const=None, exempt=(), history=True, equal
                     env.eq("C01,C02,C03", "H-jac d%s/d%s after linearising at a point that differs only in %s%s" % (k[0], k[1], kin, tag),
                            jacK.dense(k), jacC.dense(k))
     return hB
+
+
+def history_contract(env, factory, props, const=None, setup_model=None, pre=None):
+    """the outputs of a live instance are those of a fresh instance (a) after one evaluation at an unrelated point and (b),
+    for every input in turn, after two evaluations that differ from the current point - and from each other - in that input
+    alone (a sweep of one quantity: whatever is remembered under a key that leaves it out, or accumulated per call, shows at
+    the third evaluation).  Compute only; tagged with the properties whose statements are about this component's outputs."""
+    hF = env.comp("fresh", factory, setup_model)
+    if pre:
+        pre(env, hF)
+    ins = hF.inputs(const=const)
+    hA = env.comp("live", factory, setup_model)
+    if pre:
+        pre(env, hA)
+    insP = hA.inputs(tag="P.", const=const)
+    insQ = hA.inputs(tag="P2.", const=const)
+
+    def _tag(path):
+        if env.sym and path:
+            return " @path(" + ";".join("%s=%s" % (_short(c), "T" if b else "F") for c, b in path) + ")"
+        return ""
+
+    def fresh():
+        hC = env.comp("fresh2", factory, setup_model)
+        if pre:
+            pre(env, hC)
+        return hC.compute(ins)
+
+    def quietly(f, *a, **k):
+        # which branch an earlier evaluation took is immaterial here (deriv.<name> explores those under C03): default branch
+        S.PATH.mute = True
+        try:
+            return f(*a, **k)
+        finally:
+            S.PATH.mute = False
+
+    def visit_then():
+        st = hA.out_store()
+        quietly(hA.compute, insP, outs=st)
+        return hA.compute(ins, outs=st)
+    import time as _time
+    import os as _os
+    t0 = _time.time()
+    for path, o in env.explore(visit_then):
+        oC = fresh()
+        for n in hA.out_names:
+            env.eq(props, "H-out %s after an evaluation at another point%s" % (n, _tag(path)), o[n], oC[n])
+    t1 = _time.time() - t0
+    free = [k for k in hF.in_names if not (const and k in const)]
+    # cost guard: a sweep costs about 4/3 of the block above per input; components whose symbolic evaluation is slow get the
+    # sweeps in the thorough tier only (noted in the evidence)
+    thorough = _os.environ.get("OASVERIF_TIER", "quick") == "thorough"
+    est = 1.4 * t1 * len(free)
+    if est > (900.0 if thorough else 25.0):
+        env.note("%s: sweep histories skipped (estimated %.0f s)%s" % (hF.fq, est, "" if thorough else "; run in the thorough tier"))
+        free = []
+    for kin in free:
+        hK = env.comp("live2." + kin, factory, setup_model)
+        if pre:
+            pre(env, hK)
+        i1, i2 = dict(ins), dict(ins)
+        i1[kin] = insP[kin]
+        i2[kin] = insQ[kin]
+
+        def sweep(hK=hK, i1=i1, i2=i2):
+            st = hK.out_store()
+            quietly(hK.compute, i1, outs=st)
+            quietly(hK.compute, i2, outs=st)
+            return hK.compute(ins, outs=st)
+        for path, o in env.explore(sweep):
+            oC = fresh()
+            for n in hK.out_names:
+                env.eq(props, "H-out %s at the third evaluation of a sweep of %s%s" % (n, kin, _tag(path)), o[n], oC[n])
+    return hF
 
 
 def isolation_contract(env, factory, sibling, const=None, setup_model=None, pre=None):
